@@ -197,6 +197,12 @@ _HASH_TRANSITIONS: dict[tuple[HashUpdateCause, FileState, bool], tuple[FileState
     (HashUpdateCause.FAILED, FileState.BUILT, False): (FileState.PLANNED, "deleted"),
     (HashUpdateCause.FAILED, FileState.OUTDATED, False): (FileState.PLANNED, None),
     (HashUpdateCause.FAILED, FileState.PLANNED, False): (FileState.PLANNED, None),
+    # Two steps that use the same static file can both fail on it in one build,
+    # e.g. because it vanished while both were running.
+    # The first failure to be processed makes the file MISSING;
+    # the second one then reports on a file that is MISSING already, or back on disk.
+    (HashUpdateCause.FAILED, FileState.MISSING, False): (FileState.MISSING, None),
+    (HashUpdateCause.FAILED, FileState.MISSING, True): (FileState.CONFIRMED, None),
     (HashUpdateCause.CONFIRMED, FileState.UNCONFIRMED, True): (FileState.CONFIRMED, "completed"),
     (HashUpdateCause.CONFIRMED, FileState.UNCONFIRMED, False): (FileState.MISSING, "deleted"),
     # Two steps can race to be the first to use the same static-tree file:
